@@ -67,7 +67,64 @@ func c20Inputs() ([][]byte, error) {
 	if err != nil {
 		return nil, err
 	}
-	return [][]byte{clear, eb.Bytes(), prog}, nil
+	inputs := [][]byte{clear, eb.Bytes(), prog}
+	if c20InstancePath != "" {
+		a, b, err := c20Sinks(c20InstancePath)
+		if err != nil {
+			return nil, err
+		}
+		inputs = append(inputs, a, b)
+	}
+	return inputs, nil
+}
+
+// c20InstancePath: NDJSON export of BoxLayouts.tla (set from -instances).
+var c20InstancePath string
+
+// c20Sinks builds two "kitchen sink" files holding one instance of every box shape of BoxLayouts.tla that the
+// file decoder accepts as a top-level box: sink A with the spec's fillers, sink B with every value field
+// altered. Two objects decoded from A and B are independent; hidden shared decoder state (caches, pools,
+// retained buffers) shows as a change of the first object when the second is decoded.
+func c20Sinks(path string) (a, b []byte, err error) {
+	accepts := func(data []byte) bool {
+		f, err := safeDecodeFile(data)
+		return err == nil && f != nil
+	}
+	seen := map[string]bool{}
+	err = readLines(path, func(line []byte) error {
+		var in c01Inst
+		if err := json.Unmarshal(line, &in); err != nil {
+			return err
+		}
+		idx, _ := in.Pick[0].(float64)
+		if idx != 0 || in.Hdr != "s32" || in.Wrap != "none" || in.Cnt != 2 || seen[in.Layout] {
+			return nil
+		}
+		switch in.Type {
+		case "moov", "moof", "mdat", "ftyp", "styp", "sidx", "mfra", "emsg": // grouped specially by File.AddChild
+			return nil
+		}
+		va := toBytes(in.Bytes)
+		vb := append([]byte{}, va...)
+		for _, f := range in.Fields {
+			if f.T != "u" {
+				continue
+			}
+			for k := 0; k < f.W; k++ {
+				vb[in.Body+f.O+k] ^= 0x15
+			}
+		}
+		if !accepts(va) || !accepts(vb) || !accepts(cat(a, va)) || !accepts(cat(b, vb)) {
+			return nil
+		}
+		seen[in.Layout] = true
+		a, b = cat(a, va), cat(b, vb)
+		return nil
+	})
+	if err == nil && len(seen) < 60 {
+		err = fmt.Errorf("kitchen sink holds only %d box shapes", len(seen))
+	}
+	return a, b, err
 }
 
 var c20Key = []byte{1, 2, 3, 4, 5, 6, 7, 8, 9, 10, 11, 12, 13, 14, 15, 16}
@@ -115,6 +172,9 @@ func c20Op(st *c20State, op string, inputs [][]byte) (res int) {
 			res = dig([]byte(fmt.Sprint("panic:", r)))
 		}
 	}()
+	if (op[0] == 'D' || op[0] == 'S') && int(op[1]-'0') >= len(inputs) {
+		return -4
+	}
 	switch op[0] {
 	case 'D':
 		f, err := mp4.DecodeFile(bytes.NewReader(inputs[int(op[1]-'0')]))
@@ -210,6 +270,7 @@ func inputDigests(inputs [][]byte) []int {
 }
 
 func c20Replay(args []string) error {
+	c20InstancePath = argValue(args, "-instances", "")
 	pristine, err := c20Inputs()
 	if err != nil {
 		return err
@@ -299,6 +360,7 @@ func c20Replay(args []string) error {
 // c20Race runs program tuples on real goroutines sharing the input slices; meant for a -race build.
 // The race detector reports to stderr; result mismatches against the solo digests are counted here.
 func c20Race(args []string) error {
+	c20InstancePath = argValue(args, "-instances", "")
 	pristine, err := c20Inputs()
 	if err != nil {
 		return err
